@@ -60,20 +60,27 @@ PLANS['C03'] = Plan(
 
 PLANS['C16'] = Plan(
     'C16', ['src/correlation/vectorise.py::vectorisePositions', 'src/correlation/optical_map.py::toRelativeGenomicPositions',
+            'src/correlation/optical_map.py::toRelativeGenomicPositions#real',
             'src/correlation/peaks_selector.py::PeaksSelector.selectPeaks',
-            'src/correlation/sequence_generator.py::SequenceGenerator.positionsToSequence', 'src/correlation/vectorise.py::blur'], 'other',
-    "Proved for all inputs (deductive): vectorisePositions (bit k set iff a label lies in [start+k*res, start+(k+1)*res), every label between start "
-    "and end covered; ghost bin boundaries and witness array), toRelativeGenomicPositions (bin centre, within resolution/2 of every coordinate of the bin; "
-    "element-wise numpy broadcasting assumed), PeaksSelector.selectPeaks (the count highest-scoring peaks in descending order; sorted() assumed stable "
-    "ordered permutation), blur (a result bit is 1 exactly when a non-zero original entry lies within the radius, length kept, ValueError exactly for a negative "
-    "radius: invariant over the list of shifted copies, then the zip_longest table column by column; zip_longest / any / numpy.array as assumed library "
-    "contracts), SequenceGenerator.positionsToSequence (their composition, bins counted from `start`, proved against the two proved contracts). BOUNDED, not "
-    "proved: CorrelationResult.createPeaks (numpy argpartition) is checked exhaustively on small cases through the real function; blur and the composition are "
-    "cross-checked the same way.",
+            'src/correlation/sequence_generator.py::SequenceGenerator.positionsToSequence', 'src/correlation/vectorise.py::blur',
+            'src/correlation/optical_map.py::CorrelationResult.createPeaks'], 'proof',
+    "C16 is the conjunction of the postconditions of the real functions, each proved for all inputs: vectorisePositions (bit k set iff a label lies in "
+    "[start+k*res, start+(k+1)*res), every label between start and end covered; ghost bin boundaries and witness array); blur (a result bit is 1 exactly when a "
+    "non-zero original entry lies within the radius, length kept, ValueError exactly for a negative radius: invariant over the list of shifted copies, then the "
+    "zip_longest table column by column); SequenceGenerator.positionsToSequence (their composition, bins counted from `start`, proved against the two proved "
+    "contracts); toRelativeGenomicPositions (bin centre, within resolution/2 of every coordinate of the bin; also for fractional bin coordinates); "
+    "CorrelationResult.createPeaks (min(peaksCount, found) peaks, each one of the found peaks - none twice - converted to its bin centre with its height and score "
+    "= height - noise level; no dropped peak is higher than a kept one); PeaksSelector.selectPeaks (over all correlations of a query: the count highest-scoring "
+    "peaks in descending order). Library functions enter through assumed contracts, listed under assumptions: sorted (stable ordered permutation), "
+    "itertools.zip_longest, any, numpy.array, numpy.argpartition, numpy fancy indexing, numpy.arange, element-wise numpy arithmetic. A bounded cross-check of blur, "
+    "createPeaks and the composition (exhaustive small cases through the real functions, numpy included) runs alongside; it supplies replayable inputs and is "
+    "not counted as proof.",
     bounded=_lazy('bcheck.c16', 'bounded'), replay=_lazy('bcheck.c16', 'replay'),
-    technique='deductive (own VC generator + z3) for vectorise / blur / their composition / bin-to-bp / seed selection; bounded exhaustive monitor for createPeaks (and cross-checks)',
-    assumptions=['numpy array arithmetic is element-wise (toRelativeGenomicPositions proved for one coordinate)',
-                 'createPeaks (numpy argpartition): bounded only', 'itertools.zip_longest, any, numpy.array: assumed library contracts'],
+    technique='deductive: own VC generator over the real AST + z3, every function of the statement under contract (library functions as assumed contracts); bounded exhaustive cross-check for replay',
+    assumptions=['numpy array arithmetic is element-wise (toRelativeGenomicPositions proved for one coordinate and applied to arrays)',
+                 'itertools.zip_longest, any, numpy.array, numpy.argpartition, numpy fancy indexing, numpy.arange, sorted: assumed library contracts (pyvc/builtins_.py)',
+                 'createPeaks precondition: one property entry per found peak (scipy.signal.find_peaks), peaksCount >= 0',
+                 'the glue that feeds these functions (FFT correlation, scipy find_peaks, getSequence / getInitialAlignment / refine) is not part of C16'],
 )
 
 AE = 'src/alignment/aligner.py::AlignerEngine.'
